@@ -499,6 +499,41 @@ def r10h(ctx):
                     ctx.report("R10h", f, call, norm(call, 60),
                                f"{cname}.{name}(clone=True) can attach the caller's own object ({why}): the table then holds the very node the caller keeps — later edits of "
                                f"it change the table, and passing the same list to a second row moves the nodes out of the first")
+    # a method WITHOUT a flag of its own copies by contract (the callee's default): it may pass clone=False only for an object it made or read itself,
+    # never for one of its own parameters (the caller's object would be attached — moved if it already sits in a table — while the maps count a new item)
+    for cname in ("Table", "Row"):
+        c = repo.cls(cname)
+        for name, fs in sorted(c.methods.items()):
+            f = fs[0]
+            params = [a.arg for a in f.all_params()]
+            if "clone" in params or f.kind in ("getter", "nested"):
+                continue
+            items = {a.arg for a in f.all_params() if a.arg not in ("self",) and (a.annotation is None or any(k in ast.unparse(a.annotation) for k in ("Row", "Cell", "Column", "Element")))}
+            if not items:
+                continue
+            elems = set(items)
+            for lp in [x for x in walk_no_nested(f.node) if isinstance(x, ast.For) and isinstance(x.target, ast.Name)]:
+                if any(isinstance(y, ast.Name) and y.id in elems for y in ast.walk(lp.iter)):
+                    elems.add(lp.target.id)
+            rebound = {t.id for a in walk_no_nested(f.node) if isinstance(a, ast.Assign) for t in a.targets if isinstance(t, ast.Name)}
+            for call in [x for x in walk_no_nested(f.node) if isinstance(x, ast.Call)]:
+                kw = [k for k in call.keywords if k.arg == "clone" and isinstance(k.value, ast.Constant) and k.value.value is False]
+                if not kw:
+                    continue
+                g = c.lookup(call_name(call)) or repo.cls("Row").lookup(call_name(call)) or repo.cls("Table").lookup(call_name(call))
+                if g is None or call_name(call).lstrip("_").startswith("get"):
+                    continue
+                args = list(call.args) + [k.value for k in call.keywords if k.arg != "clone"]
+                passed = [a for a in args if isinstance(a, ast.Name) and a.id in elems and a.id not in rebound]
+                n += 1
+                ok = not passed
+                ctx.instance("R10h", f"{f.file}:{f.ident}", f"{norm(call, 50)}: " + ("own object handed over without a copy" if ok else f"the caller's `{passed[0].id}` handed over without a copy"),
+                             ok=ok, nontrivial=True, line=call.lineno)
+                if not ok:
+                    ctx.report("R10h", f, call, norm(call, 60),
+                               f"{cname}.{name} has no clone flag, so its contract is the callee's default (a copy is stored); it passes clone=False with its own parameter "
+                               f"`{passed[0].id}`: the caller's object itself is attached — if it already sits in a table lxml moves it while the position map counts a new item, "
+                               f"and later edits of it reach the table")
     if n == 0:
         raise AnalysisError("R10h: no setter with a clone flag found")
 
@@ -529,6 +564,8 @@ _DOC = "src/odfdo/document.py"
 _XP = "src/odfdo/xmlpart.py"
 _EL = "src/odfdo/element.py"
 SEEDS = [
+    Seed("Table.append hands the caller's row over without a copy", "fault", _T, "            self.append_row(something)", "            self.append_row(something, clone=False)", "R10h"),
+    Seed("Table.append copies explicitly", "neutral", _T, "            self.append_row(something)", "            self.append_row(something, clone=True)"),
     Seed("Row.set_cells fast path no longer asks for clone is False", "fault", _R,
          "        if start == 0 and clone is False and (len(cells) >= self.width):", "        if start == 0 and len(cells) >= self.width:", "R10h"),
     Seed("Table.append_row appends the caller's row", "fault", _T, "        elif clone:\n            row = row.clone\n        # Appending a repeated row accepted", "        # Appending a repeated row accepted", "R10h"),
